@@ -1158,8 +1158,11 @@ public:
     operator SafeBool() const { return suffix_; }
 
     /// Sets the suffix value.
+    /// An index outside of the suffix is ignored: e.g., the solution
+    /// count reported on objective 0 of a problem without objectives.
     void SetValue(int index, T value) {
-      suffix_.set_value(index, value);
+      if (index >= 0 && index < suffix_.num_values())
+        suffix_.set_value(index, value);
     }
   };
 
